@@ -359,6 +359,11 @@ func cpuGenInstr(c *ctx, x *cpuRun, prop string) {
 	// nothing of the predecessor's bookkeeping (early-finish test, operand latches) leaks into the next instruction
 	preds := [][]uint8{{0x20, 0x00}, {0x28, 0x00}, {0x30, 0x00}, {0x38, 0x00}, {0xc2, 0, 0}, {0xca, 0, 0}, {0xd2, 0, 0}, {0xda, 0, 0},
 		{0xc0}, {0xc8}, {0xd0}, {0xd8}, {0xc4, 0, 0}, {0xcc, 0, 0}, {0xd4, 0, 0}, {0xdc, 0, 0}, {0x00}, {0x3e, 0x12}, {0xcb, 0x46}, {0xfb}, {0xf3}}
+	// predecessors that STORE to (HL); the byte is then changed behind the CPU's back (as an I/O register, a DMA or
+	// another bus master would) before the follower runs, so a follower that reuses what the CPU last stored
+	// instead of reading shows
+	nPlain := len(preds)
+	preds = append(preds, [][]uint8{{0x34}, {0x35}, {0xcb, 0x86}, {0xcb, 0x06}, {0xcb, 0xfe}, {0x36, 0x5a}, {0x77}}...)
 	for pi, pred := range preds {
 		for pre := 0; pre < 2; pre++ {
 			for o := 0; o < 256; o++ {
@@ -366,7 +371,10 @@ func cpuGenInstr(c *ctx, x *cpuRun, prop string) {
 				if !defined(pre == 1, op) || (pre == 0 && (op == 0x76 || op == 0x10)) {
 					continue
 				}
-				if !c.thorough() && (o+pi)%3 != 0 && !(pre == 1 && o&7 == 6) {
+				if !c.thorough() && pi < nPlain && (o+pi)%3 != 0 && !(pre == 1 && o&7 == 6) {
+					continue
+				}
+				if !c.thorough() && pi >= nPlain && (o+pi)%2 != 0 && o&7 != 6 && o != 0x34 && o != 0x35 {
 					continue
 				}
 				rs := randRegs(r)
@@ -399,6 +407,9 @@ func cpuGenInstr(c *ctx, x *cpuRun, prop string) {
 					n++
 					if strings.Contains(out, "bnd=1") {
 						bnds++
+						if hl := uint16(rs.h)<<8 | uint16(rs.l); bnds == 1 && pi >= nPlain && hl >= 0xc000 && hl < 0xe000 {
+							x.do(fmt.Sprintf("poke %04x %02x", hl, r.byte()))
+						}
 					}
 					if out == "exit" || out == "crash" {
 						break
